@@ -234,6 +234,26 @@ func canBeSingle(a string) bool { return !strings.Contains(a, "'") }
 // value when the opening quote is at quote-column qc.  Line breaks in the value are
 // written as literal line breaks followed by an indent of qc+1 blanks when
 // that is decodable (no blanks around the break), otherwise as \n.
+// contIndent: n columns of indentation for a continuation line.  With mix > 0 some of them are written as
+// tabs behind 1..7 leading blanks (a tab counts as 8 columns wherever it stands, RFC 6020 6.1.3).
+func contIndent(n, mix int) string {
+	if mix <= 0 || n < 10 {
+		return strings.Repeat(" ", n)
+	}
+	lead := 1 + mix%7
+	tabs := (n - lead) / 8
+	if tabs < 1 {
+		return strings.Repeat(" ", n)
+	}
+	if mix%3 == 0 && tabs > 1 {
+		tabs--
+	}
+	return strings.Repeat(" ", lead) + strings.Repeat("\t", tabs) + strings.Repeat(" ", n-lead-8*tabs)
+}
+
+// encodeDoubleMix: the mix argument of contIndent for the next encodeDouble call (set by the renderer).
+var encodeDoubleMix int
+
 func encodeDouble(value string, qc int, literalBreaks bool) string {
 	var b strings.Builder
 	for i := 0; i < len(value); i++ {
@@ -255,10 +275,10 @@ func encodeDouble(value string, qc int, literalBreaks bool) string {
 				// beyond the quote column and stay (an escaped break would put them next to "\n", which is
 				// outside the asserted domain)
 				b.WriteString("\n")
-				b.WriteString(strings.Repeat(" ", qc+1))
+				b.WriteString(contIndent(qc+1, encodeDoubleMix))
 			} else if literalBreaks && !prevBlank && !nextBlank {
 				b.WriteString("\n")
-				b.WriteString(strings.Repeat(" ", qc+1))
+				b.WriteString(contIndent(qc+1, encodeDoubleMix))
 			} else {
 				b.WriteString(`\n`)
 			}
@@ -340,7 +360,12 @@ func (r *renderer) arg(a string) {
 	case 2:
 		qc := r.qcol
 		lit := l.R != nil && l.R.Bool()
+		encodeDoubleMix = 0
+		if l.R != nil && l.Trivia > 0 && l.R.Chance(1, 3) {
+			encodeDoubleMix = l.R.Range(1, 20)
+		}
 		enc := `"` + encodeDouble(a, qc, lit) + `"`
+		encodeDoubleMix = 0
 		r.write(enc)
 		if l.R != nil && l.Trivia > 0 && strings.Contains(enc, "\n") && !strings.Contains(enc, "*/") && l.R.Chance(1, 4) {
 			// the same text once more, as a comment behind the argument (at another column): trivia
